@@ -828,11 +828,24 @@ class EventGenerator:
         Yields:
             An iterator of sax events.
         """
-        if collections.is_array(value):
+        if collections.is_array(value) and not self.is_tokens_choice(value, var):
             for val in value:
                 yield from self.convert_choice(val, var, namespace)
         else:
             yield from self.convert_choice(value, var, namespace)
+
+    @classmethod
+    def is_tokens_choice(cls, value: Any, var: XmlVar) -> bool:
+        """Return whether the array is the single value of a tokens choice.
+
+        A compound field that is not a list holds one value, if that value
+        is a flat array it belongs to one of the tokens choices as a whole.
+        """
+        if var.list_element or any(collections.is_array(val) for val in value):
+            return False
+
+        choice = var.find_value_choice(value, False)
+        return choice is not None and choice.tokens
 
     def convert_choice(
         self, value: Any, var: XmlVar, namespace: str | None
